@@ -49,6 +49,8 @@ type Monitor struct {
 	confAt map[uint64]string // index of conf-change entry -> ConfState after applying it (all nodes agree)
 
 	pendingStep *pb.Message
+	// off: no monitoring at all (node fuzzing: inputs are not restricted to the contract)
+	off bool
 }
 
 type nodeObs struct {
@@ -118,6 +120,9 @@ func (m *Monitor) o(n *Node) *nodeObs {
 // incarnation start / crash
 
 func (m *Monitor) onStart(n *Node) {
+	if m.off {
+		return
+	}
 	if n.RN == nil {
 		return
 	}
@@ -152,6 +157,9 @@ func (m *Monitor) onStart(n *Node) {
 func (m *Monitor) onCrash(n *Node) {}
 
 func (m *Monitor) onPanic(n *Node, op string) {
+	if m.off {
+		return
+	}
 	msg := n.Panic
 	key := "panic: " + classifyPanic(msg)
 	m.c.violate("C14", key, "node %d panicked in %q: %s", n.ID, firstWords(op, 6), msg)
@@ -185,6 +193,9 @@ func classifyPanic(s string) string {
 // observe: called after every successful call into node n
 
 func (m *Monitor) observe(n *Node, op string) {
+	if m.off {
+		return
+	}
 	if n.RN == nil || !n.Alive {
 		return
 	}
@@ -450,6 +461,9 @@ func (m *Monitor) checkLogMatching(n *Node, base uint64, ents []*pb.Entry) {
 // messages on the wire
 
 func (m *Monitor) onSend(from *Node, msg *pb.Message) {
+	if m.off {
+		return
+	}
 	hs, _, _ := from.St.InitialState()
 	ob := m.o(from)
 	switch msg.GetType() {
@@ -553,6 +567,9 @@ func (m *Monitor) checkAppSize(from *Node, msg *pb.Message) {
 // Ready / persistence / apply
 
 func (m *Monitor) onReady(n *Node, rd *raft.Ready) {
+	if m.off {
+		return
+	}
 	ob := m.o(n)
 	// C07: hard states exposed are monotone
 	check := func(hs *pb.HardState) {
@@ -651,6 +668,9 @@ func (m *Monitor) checkBatch(n *Node, ob *nodeObs, batch []*pb.Entry, rd *raft.R
 }
 
 func (m *Monitor) onPersist(n *Node) {
+	if m.off {
+		return
+	}
 	hs, _, _ := n.St.InitialState()
 	if hs != nil && hs.GetVote() != 0 {
 		m.recordGrant(hs.GetTerm(), n.ID, hs.GetVote(), false)
@@ -658,6 +678,9 @@ func (m *Monitor) onPersist(n *Node) {
 }
 
 func (m *Monitor) onSnapshotApplied(n *Node, snap *pb.Snapshot) {
+	if m.off {
+		return
+	}
 	idx, term := snap.GetMetadata().GetIndex(), snap.GetMetadata().GetTerm()
 	if want, ok := m.applied[idx]; ok {
 		if !strings.HasPrefix(want, fmt.Sprintf("%d/", term)) {
@@ -670,6 +693,9 @@ func (m *Monitor) onSnapshotApplied(n *Node, snap *pb.Snapshot) {
 
 // C01: every entry handed to the application
 func (m *Monitor) onApply(n *Node, e *pb.Entry) {
+	if m.off {
+		return
+	}
 	txt := entText(e)
 	i := e.GetIndex()
 	if prev, ok := m.applied[i]; ok {
@@ -709,6 +735,9 @@ type stepCtx struct {
 var cur stepCtx
 
 func (m *Monitor) snapshotCtx(n *Node) {
+	if m.off {
+		return
+	}
 	cur = stepCtx{st: n.RN.BasicStatus()}
 	base, ents := n.RN.VerifLogicalLog()
 	cur.base, cur.last, cur.lastT = base, base+uint64(len(ents)), lastTermOf(ents)
@@ -734,6 +763,9 @@ func (m *Monitor) hasUnappliedCommittedCC(n *Node, st raft.BasicStatus, base uin
 }
 
 func (m *Monitor) beforeStep(n *Node, msg *pb.Message) {
+	if m.off {
+		return
+	}
 	m.snapshotCtx(n)
 	m.pendingStep = msg
 	if msg.GetType() == pb.MsgPreVoteResp && !msg.GetReject() {
@@ -766,6 +798,9 @@ func (m *Monitor) beforeStep(n *Node, msg *pb.Message) {
 }
 
 func (m *Monitor) afterStep(n *Node, msg *pb.Message, err error) {
+	if m.off {
+		return
+	}
 	if n.RN == nil || !n.Alive {
 		return
 	}
@@ -810,6 +845,10 @@ func (m *Monitor) afterStep(n *Node, msg *pb.Message, err error) {
 		if st.RaftState == raft.StateLeader && msg.GetTerm() == st.GetTerm() {
 			ob.heard[msg.GetFrom()] = ob.leaderTick
 		}
+	case pb.MsgTransferLeader:
+		// observation O1 (DESIGN.md 7.7): a transfer request restarts the leader's election timer, so
+		// the step-down bound is only checked over windows without one
+		ob.lastXfer = ob.leaderTick
 	case pb.MsgProp:
 		if cur.st.RaftState == raft.StateLeader {
 			m.noteOutcome(n, msg, err)
@@ -823,6 +862,9 @@ func (m *Monitor) afterStep(n *Node, msg *pb.Message, err error) {
 
 // afterCall runs after every successful call into a live node (the pre-call context is in cur).
 func (m *Monitor) afterCall(n *Node, op string) {
+	if m.off {
+		return
+	}
 	if n.RN == nil || !n.Alive {
 		return
 	}
@@ -989,6 +1031,9 @@ func (m *Monitor) checkLeaderFlow(n *Node) {
 // ticks (C17 step-down bound)
 
 func (m *Monitor) afterTick(n *Node) {
+	if m.off {
+		return
+	}
 	if n.RN == nil || !n.Alive {
 		return
 	}
@@ -1016,7 +1061,7 @@ func (m *Monitor) afterTick(n *Node) {
 					}
 				}
 				if 2*cnt <= len(vs[k]) {
-					m.c.violate("C17", "leader outlived its quorum contact", "leader %d term %d still leads after %d ticks hearing only from %d of %v within two election timeouts", n.ID, st.GetTerm(), ob.leaderTick, cnt, vs[k])
+					m.c.violate("C17", "leader outlived its quorum contact", "leader %d term %d still leads after %d ticks hearing only from %d of %v within two election timeouts (last heard at own tick: %v; electionElapsed %d)", n.ID, st.GetTerm(), ob.leaderTick, cnt, vs[k], ob.heard, n.RN.VerifInfo().ElectionElapsed)
 				}
 			}
 		}
@@ -1024,6 +1069,9 @@ func (m *Monitor) afterTick(n *Node) {
 }
 
 func (m *Monitor) onTransferRequest(n *Node, to uint64) {
+	if m.off {
+		return
+	}
 	ob := m.o(n)
 	ob.lastXfer = ob.leaderTick
 }
@@ -1032,6 +1080,9 @@ func (m *Monitor) onTransferRequest(n *Node, to uint64) {
 // C11 reads
 
 func (m *Monitor) onReadIssued(n *Node, ctx []byte) {
+	if m.off {
+		return
+	}
 	if m.c.O.ReadOnlyLease {
 		return
 	}
@@ -1054,6 +1105,9 @@ func (m *Monitor) onReadIssued(n *Node, ctx []byte) {
 }
 
 func (m *Monitor) onReadState(n *Node, rs raft.ReadState) {
+	if m.off {
+		return
+	}
 	if m.c.O.ReadOnlyLease {
 		return
 	}
@@ -1080,18 +1134,27 @@ func payloadID(data []byte) string {
 
 // registerProposal / markDropped: bookkeeping for proposals that are not issued through Propose()
 func (m *Monitor) registerProposal(n *Node, data []byte) {
+	if m.off {
+		return
+	}
 	if len(data) > 0 {
 		m.proposals[payloadID(data)] = &propInfo{node: n.ID}
 	}
 }
 
 func (m *Monitor) markDropped(data []byte) {
+	if m.off {
+		return
+	}
 	if pi := m.proposals[payloadID(data)]; pi != nil {
 		pi.dropped = true
 	}
 }
 
 func (m *Monitor) beforePropose(n *Node, data []byte) {
+	if m.off {
+		return
+	}
 	m.snapshotCtx(n)
 	if len(data) > 0 {
 		m.proposals[payloadID(data)] = &propInfo{node: n.ID}
@@ -1102,6 +1165,9 @@ func (m *Monitor) beforePropose(n *Node, data []byte) {
 }
 
 func (m *Monitor) afterPropose(n *Node, data []byte, err error) {
+	if m.off {
+		return
+	}
 	if n.RN == nil || !n.Alive {
 		return
 	}
@@ -1198,6 +1264,9 @@ func (m *Monitor) checkProposalIntegrity(n *Node, base uint64, ents []*pb.Entry)
 func (m *Monitor) beforeProposeCC(n *Node, cc pb.ConfChangeI) { m.snapshotCtx(n) }
 
 func (m *Monitor) afterProposeCC(n *Node, cc pb.ConfChangeI, err error) {
+	if m.off {
+		return
+	}
 	if n.RN == nil || !n.Alive {
 		return
 	}
@@ -1293,6 +1362,9 @@ func foldConf(cs *pb.ConfState, cc *pb.ConfChangeV2) *pb.ConfState {
 }
 
 func (m *Monitor) onConfApplied(n *Node, e *pb.Entry, cs *pb.ConfState) {
+	if m.off {
+		return
+	}
 	ob := m.o(n)
 	ob.lastConfCh = ob.leaderTick
 	if pv := n.confAtIndex(e.GetIndex() - 1); pv != nil && len(pv.GetVoters()) == 2 && len(cs.GetVoters()) < 2 {
@@ -1348,6 +1420,9 @@ func (m *Monitor) converged() bool {
 }
 
 func (m *Monitor) onConvergeEnd() {
+	if m.off {
+		return
+	}
 	c := m.c
 	if c.fatal() {
 		return
